@@ -36,21 +36,32 @@ package getopt
 //     the reference has them switched off (verifRefAbbrev) and "-a" in LongOnly
 //     mode is the unknown long option "a", not an abbreviation of "all".
 //
-// Two places where Parse deviates from GNU WITHOUT documentation are kept as
-// failing checks (reported as findings); VERIF_SKIP_KNOWN=1 makes the reference
-// imitate Parse for exactly these two shapes so that the rest of the space can
-// be compared (VERIF_SKIP_KNOWN=F1 or =F2 imitates only one of them):
+// Three places where Parse deviates (or deviated) from GNU WITHOUT documentation
+// are kept as failing checks (reported as findings). With VERIF_SKIP_KNOWN=1 a
+// case that disagrees with the strict reference is additionally compared with a
+// reference that imitates Parse for exactly these shapes, and is accepted if
+// that one agrees, so that the rest of the space can be compared and the
+// harness passes both on a tree that has the deviation and on one where it is
+// fixed (VERIF_SKIP_KNOWN=F1, =F2 or =F3 tolerates only one of them):
 //
 //	F1. "--all=v" for a NoArgument option: GNU rejects it ("option '--all'
 //	    doesn't allow an argument"); Parse returns the option with
 //	    Argument "v" and no error.
 //	F2. "--=v" (empty long name): must be an unknown option, but Parse matches
 //	    it against any spec whose Long is "" (documented as "short-only").
+//	F3. "--all=" (explicitly attached EMPTY argument) for a NoArgument option:
+//	    GNU rejects it exactly like "--all=v" (the test is "is there an '='",
+//	    not "is the value non-empty"); Parse cannot tell "--all=" from "--all"
+//	    (Option.Argument is "" for both) and returns the option without error.
+//
+// An explicitly attached empty argument for an option that takes one
+// ("--name=", "--opt=") means the argument IS given and is "": "--name= x"
+// yields name="" and the operand x, exactly as getopt_long does.
 //
 // Bounds:
 //
-//	quick    (default)             : 22-token pool, 0..3 tokens, 16 spec sets, 8 configs ->  1,427,840 cases, ~2 s
-//	thorough (VERIF_TIER=thorough) : 22-token pool, 0..4 tokens, 16 spec sets, 8 configs -> 31,412,608 cases, ~40 s
+//	quick    (default)             : 25-token pool, 0..3 tokens, 16 spec sets, 8 configs ->  2,083,328 cases
+//	thorough (VERIF_TIER=thorough) : 25-token pool, 0..4 tokens, 16 spec sets, 8 configs -> 52,083,328 cases
 
 import (
 	"fmt"
@@ -63,6 +74,12 @@ import (
 var verifC38Pool = []string{
 	"-a", "-b", "-ab", "-bx", "-c", "-cval", "-z", "-d",
 	"--all", "--name", "--name=v", "--opt", "--opt=v", "--bogus", "--all=v", "--=v",
+	// Explicitly attached EMPTY arguments: the argument IS given (and is ""),
+	// exactly as getopt_long treats "--name=" (optarg = "" and, for a required
+	// argument, the next token is NOT consumed). "--all=" is the same shape as
+	// F1 with an empty value: GNU rejects it as well. The empty separate
+	// argument (-b "" / --name "") is covered by the "" token below.
+	"--name=", "--opt=", "--all=",
 	"-all", "-name=v",
 	"--", "-", "x", "",
 }
@@ -93,6 +110,7 @@ type verifRefMode struct {
 	longOnly            bool // getopt_long_only without short options
 	imitateF1           bool // VERIF_SKIP_KNOWN: accept --noarg=value
 	imitateF2           bool // VERIF_SKIP_KNOWN: let "--=v" match a spec with Long == ""
+	imitateF3           bool // VERIF_SKIP_KNOWN: accept --noarg= (empty attached value)
 }
 
 // verifRefGetopt is the reference: an independent getopt_long loop.
@@ -154,7 +172,7 @@ func verifRefGetopt(argv []string, specs []*OptionSpec, m verifRefMode) (opts []
 			}
 			switch spec.Arity {
 			case NoArgument:
-				if hasValue && !m.imitateF1 {
+				if hasValue && !(m.imitateF1 && value != "") && !(m.imitateF3 && value == "") {
 					// option '--name' doesn't allow an argument
 					bad = true
 					continue
@@ -287,10 +305,11 @@ func TestVerifBoundedC38(t *testing.T) {
 	if os.Getenv("VERIF_TIER") == "thorough" {
 		maxTokens = 4
 	}
-	// VERIF_SKIP_KNOWN=1 imitates both findings; =F1 or =F2 only that one.
+	// VERIF_SKIP_KNOWN=1 tolerates all findings; =F1, =F2 or =F3 only that one.
 	skipKnown := os.Getenv("VERIF_SKIP_KNOWN")
 	skipF1 := skipKnown == "1" || skipKnown == "F1"
 	skipF2 := skipKnown == "1" || skipKnown == "F2"
+	skipF3 := skipKnown == "1" || skipKnown == "F3"
 	pool := verifC38Pool
 
 	// All subsets of the specs, in the specs' order.
@@ -313,7 +332,7 @@ func TestVerifBoundedC38(t *testing.T) {
 		t.Fatalf("Config bits are not 1|2|4; adjust the enumeration")
 	}
 
-	cases, withErr := 0, 0
+	cases, withErr, tolerated := 0, 0, 0
 	idx := make([]int, maxTokens)
 	for n := 0; n <= maxTokens; n++ {
 		for i := range idx[:n] {
@@ -331,8 +350,6 @@ func TestVerifBoundedC38(t *testing.T) {
 						stopAfterDoubleDash: cfg&StopAfterDoubleDash != 0,
 						requireOrder:        cfg&StopBeforeFirstNonOption != 0,
 						longOnly:            cfg&LongOnly != 0,
-						imitateF1:           skipF1,
-						imitateF2:           skipF2,
 					}
 					ropts, rrest, rbad := verifRefGetopt(args, specs, mode)
 
@@ -359,8 +376,26 @@ func TestVerifBoundedC38(t *testing.T) {
 					if err != nil {
 						withErr++
 					}
-					if msg := verifC38Same(opts, rest, err, ropts, rrest, rbad); msg != "" {
-						t.Fatalf("C38 violated for args=%q specs=%s cfg=%v (%d): %s\n  Parse:     opts=%s rest=%q err=%v\n  reference: opts=%s rest=%q error=%v\n  (VERIF_SKIP_KNOWN=1 skips the two reported findings F1 \"--noarg=v\" and F2 \"--=v\")",
+					msg := verifC38Same(opts, rest, err, ropts, rrest, rbad)
+					if msg != "" && (skipF1 || skipF2 || skipF3) {
+						// Known findings: accept the case if the reference that
+						// imitates exactly the tolerated shapes agrees.
+						// Every subset of the tolerated findings is tried, so
+						// that a tree in which only some of them are fixed passes.
+						for sub := 1; sub < 8 && msg != ""; sub++ {
+							imode := mode
+							imode.imitateF1 = skipF1 && sub&1 != 0
+							imode.imitateF2 = skipF2 && sub&2 != 0
+							imode.imitateF3 = skipF3 && sub&4 != 0
+							iopts, irest, ibad := verifRefGetopt(args, specs, imode)
+							if verifC38Same(opts, rest, err, iopts, irest, ibad) == "" {
+								tolerated++
+								msg = ""
+							}
+						}
+					}
+					if msg != "" {
+						t.Fatalf("C38 violated for args=%q specs=%s cfg=%v (%d): %s\n  Parse:     opts=%s rest=%q err=%v\n  reference: opts=%s rest=%q error=%v\n  (VERIF_SKIP_KNOWN=1 tolerates the reported findings F1 \"--noarg=v\", F2 \"--=v\" and F3 \"--noarg=\")",
 							args, verifC38SpecNames(specs), cfg, uint(cfg), msg,
 							verifC38Describe(opts), rest, err,
 							verifC38DescribeRef(ropts), rrest, rbad)
@@ -382,8 +417,8 @@ func TestVerifBoundedC38(t *testing.T) {
 			}
 		}
 	}
-	t.Logf("pool=%d tokens, up to %d tokens, %d spec sets, %d configs, cases with error=%d, skip F1=%v F2=%v",
-		len(pool), maxTokens, len(specSets), len(cfgs), withErr, skipF1, skipF2)
+	t.Logf("pool=%d tokens, up to %d tokens, %d spec sets, %d configs, cases with error=%d, skip F1=%v F2=%v F3=%v, cases accepted only through a tolerated finding=%d",
+		len(pool), maxTokens, len(specSets), len(cfgs), withErr, skipF1, skipF2, skipF3, tolerated)
 	fmt.Printf("BOUNDED name=c38_getopt cases=%d\n", cases)
 }
 
